@@ -129,7 +129,7 @@ func (ex *Explorer) enqueue(prefix []bool) {
 }
 
 func (ex *Explorer) newInterp(p *Path) *Interp {
-	return &Interp{prog: ex.prog, ex: ex, p: p, globals: ex.globals, inited: ex.inited, overrides: map[string]Val{}, inOverride: map[string]bool{}}
+	return &Interp{prog: ex.prog, ex: ex, p: p, globals: ex.globals, inited: ex.inited, overrides: map[string]Val{}, inOverride: map[string]bool{}, abstracted: map[string]bool{}}
 }
 
 // initPackages runs the initialisers of all teleport packages in dependency order (single-threaded).
